@@ -19,6 +19,7 @@ import (
 	"github.com/nspcc-dev/neo-go/pkg/neotest"
 	"github.com/nspcc-dev/neo-go/pkg/smartcontract"
 	"github.com/nspcc-dev/neo-go/pkg/smartcontract/callflag"
+	"github.com/nspcc-dev/neo-go/pkg/smartcontract/manifest"
 	"github.com/nspcc-dev/neo-go/pkg/smartcontract/nef"
 	"github.com/nspcc-dev/neo-go/pkg/util"
 	"github.com/nspcc-dev/neo-go/pkg/vm/emit"
@@ -85,6 +86,10 @@ var calleeMethods = []struct {
 }{{"m1", false, 41}, {"m2", false, 42}, {"s", true, 43}}
 
 func manifestJSON(name string, groups []map[string]any, methods []map[string]any, perms []permSpec) []byte {
+	return manifestJSONTrusts(name, groups, methods, perms, []any{})
+}
+
+func manifestJSONTrusts(name string, groups []map[string]any, methods []map[string]any, perms []permSpec, trusts any) []byte {
 	ps := []any{}
 	for _, p := range perms {
 		var c any
@@ -110,7 +115,7 @@ func manifestJSON(name string, groups []map[string]any, methods []map[string]any
 	b, err := json.Marshal(map[string]any{
 		"name": name, "groups": groups, "features": map[string]any{}, "supportedstandards": []string{},
 		"abi":         map[string]any{"methods": methods, "events": []any{}},
-		"permissions": ps, "trusts": []any{}, "extra": nil,
+		"permissions": ps, "trusts": trusts, "extra": nil,
 	})
 	if err != nil {
 		panic(err)
@@ -184,10 +189,18 @@ func permPart(t *testing.T, run *ev.Run) {
 	}
 }
 
+type deployment struct {
+	name string
+	hash util.Uint160
+	nef  *nef.File
+	mf   []byte // the JSON manifest that was deployed
+}
+
 func permStage(t *testing.T, run *ev.Run, stage string) {
 	v := newEnv(t, stage)
 	e, bc, val := v.e, v.bc, v.val
 	sender := val.ScriptHash()
+	_ = e
 	r := rng.New(0xbe16)
 
 	g := []*keys.PrivateKey{detKey("group1"), detKey("group2"), detKey("group-unrelated")}
@@ -206,12 +219,6 @@ func permStage(t *testing.T, run *ev.Run, stage string) {
 		{Name: "calleeNoGroup"},
 		{Name: "calleeGroup1", Groups: g[:1]},
 		{Name: "calleeGroup1and2", Groups: g[:2]},
-	}
-	type deployment struct {
-		name string
-		hash util.Uint160
-		nef  *nef.File
-		mf   []byte
 	}
 	var deps []deployment
 	for _, c := range callees {
@@ -292,7 +299,19 @@ func permStage(t *testing.T, run *ev.Run, stage string) {
 	}
 	for _, c := range callers {
 		c.Hash = state.CreateContractHash(sender, callerNEF.Checksum, c.Name)
-		deps = append(deps, deployment{c.Name, c.Hash, callerNEF, manifestJSON(c.Name, nil, callerMethods, c.Perms)})
+		// trusts take every form as well: they go through the same stored form
+		var trusts any
+		switch len(deps) % 4 {
+		case 0:
+			trusts = "*"
+		case 1:
+			trusts = []any{"0x" + callees[0].Hash.StringLE()}
+		case 2:
+			trusts = []any{gk(g[1]), "0x" + callees[1].Hash.StringLE()}
+		default:
+			trusts = []any{}
+		}
+		deps = append(deps, deployment{c.Name, c.Hash, callerNEF, manifestJSONTrusts(c.Name, nil, callerMethods, c.Perms, trusts)})
 		v.names[c.Hash] = c.Name
 	}
 
@@ -357,251 +376,283 @@ func permStage(t *testing.T, run *ev.Run, stage string) {
 			cells = append(cells, cell{nil, ci, mi, "entry"})
 		}
 	}
-	cnt := &counters{m: map[string]int64{}}
-	expect := func(cl cell) (bool, string) {
-		callee, m := callees[cl.ci], calleeMethods[cl.mi]
-		if cl.caller == nil {
-			return true, "entry-script"
+	phase1Sigs := map[string]bool{}
+	var sigMu sync.Mutex
+	evaluate := func(v *env, phase string) {
+		e, bc := v.e, v.bc
+		tag := stage
+		if phase != "deploying node" {
+			tag = stage + "@" + strings.ReplaceAll(phase, " ", "-")
 		}
-		var shapes []string
-		for _, p := range cl.caller.Perms {
-			shapes = append(shapes, permShape(p, callee, m.Name))
+		// A deviation that shows only on the restarted node has a cause of its own
+		// (what the node rebuilt from its database differs from what it cached at
+		// deployment) and gets a signature of its own.
+		viol := func(sig, caseID, detail string, witness any) {
+			sigMu.Lock()
+			if phase == "deploying node" {
+				phase1Sigs[sig] = true
+			} else if !phase1Sigs[sig] {
+				sig += "@only-after-node-restart"
+			}
+			sigMu.Unlock()
+			violation(stage, sig, caseID, detail, witness)
 		}
-		sort.Strings(shapes)
-		shape := strings.Join(shapes, "+")
-		if shape == "" {
-			shape = "no-permissions"
+		cnt := &counters{m: map[string]int64{}}
+		expect := func(cl cell) (bool, string) {
+			callee, m := callees[cl.ci], calleeMethods[cl.mi]
+			if cl.caller == nil {
+				return true, "entry-script"
+			}
+			var shapes []string
+			for _, p := range cl.caller.Perms {
+				shapes = append(shapes, permShape(p, callee, m.Name))
+			}
+			sort.Strings(shapes)
+			shape := strings.Join(shapes, "+")
+			if shape == "" {
+				shape = "no-permissions"
+			}
+			if m.Safe {
+				return true, "safe-method;" + shape
+			}
+			return refMayCall(cl.caller.Perms, callee.Hash, callee.keys, m.Name), shape
 		}
-		if m.Safe {
-			return true, "safe-method;" + shape
+		script := func(cl cell) []byte {
+			callee, m := callees[cl.ci], calleeMethods[cl.mi]
+			var s []byte
+			var err error
+			switch cl.kind {
+			case "entry":
+				s, err = callScript(callee.Hash, m.Name, callflag.All)
+			case "dyn":
+				s, err = callScript(cl.caller.Hash, "dyn", callflag.All, callee.Hash, m.Name)
+			case "token":
+				s, err = callScript(cl.caller.Hash, tokName[fmt.Sprint(cl.ci, m.Name)], callflag.All)
+			}
+			if err != nil {
+				panic(err)
+			}
+			return s
 		}
-		return refMayCall(cl.caller.Perms, callee.Hash, callee.keys, m.Name), shape
-	}
-	script := func(cl cell) []byte {
-		callee, m := callees[cl.ci], calleeMethods[cl.mi]
-		var s []byte
-		var err error
-		switch cl.kind {
-		case "entry":
-			s, err = callScript(callee.Hash, m.Name, callflag.All)
-		case "dyn":
-			s, err = callScript(cl.caller.Hash, "dyn", callflag.All, callee.Hash, m.Name)
-		case "token":
-			s, err = callScript(cl.caller.Hash, tokName[fmt.Sprint(cl.ci, m.Name)], callflag.All)
+		// observed results of the test invocations, for decomposing permission sets
+		type obsKey struct {
+			caller string
+			ci, mi int
+			kind   string
 		}
-		if err != nil {
-			panic(err)
-		}
-		return s
-	}
-	// observed results of the test invocations, for decomposing permission sets
-	type obsKey struct {
-		caller string
-		ci, mi int
-		kind   string
-	}
-	observed := map[obsKey]bool{}
-	var obsMu sync.Mutex
-	// observe returns the engine's answer for a cell (run on demand when the
-	// matrix pass was filtered by a replay).
-	observe := func(cl cell) bool {
-		k := obsKey{cl.caller.Name, cl.ci, cl.mi, cl.kind}
-		obsMu.Lock()
-		got, ok := observed[k]
-		obsMu.Unlock()
-		if ok {
+		observed := map[obsKey]bool{}
+		var obsMu sync.Mutex
+		// observe returns the engine's answer for a cell (run on demand when the
+		// matrix pass was filtered by a replay).
+		observe := func(cl cell) bool {
+			k := obsKey{cl.caller.Name, cl.ci, cl.mi, cl.kind}
+			obsMu.Lock()
+			got, ok := observed[k]
+			obsMu.Unlock()
+			if ok {
+				return got
+			}
+			o, err := v.run(&invocation{Script: script(cl), EntryFlags: callflag.All})
+			got = err == nil && o.Halted
+			obsMu.Lock()
+			observed[k] = got
+			obsMu.Unlock()
 			return got
 		}
-		o, err := v.run(&invocation{Script: script(cl), EntryFlags: callflag.All})
-		got = err == nil && o.Halted
-		obsMu.Lock()
-		observed[k] = got
-		obsMu.Unlock()
-		return got
-	}
-	var judge func(cl cell, id string, halted bool, result int64, fault string, where string)
-	judge = func(cl cell, id string, halted bool, result int64, fault string, where string) {
-		callee, m := callees[cl.ci], calleeMethods[cl.mi]
-		want, shape := expect(cl)
-		if cl.caller != nil && len(cl.caller.Perms) > 1 && halted != want && !m.Safe {
-			// A permission set allows what the union of its permissions allows.
-			// If the engine's answer for the set equals the union of its answers
-			// for the one-permission manifests (deployed as well), the deviation
-			// is the one already shown by those; report it under their signature.
-			union := false
-			var culprits []*callerSpec
-			for _, p := range cl.caller.Perms {
-				sc := single[[2]int{p.di, p.li}]
-				got := observe(cell{sc, cl.ci, cl.mi, cl.kind})
-				union = union || got
-				if w, _ := expect(cell{sc, cl.ci, cl.mi, cl.kind}); w != got {
-					culprits = append(culprits, sc)
-				}
-			}
-			if union == halted && len(culprits) > 0 {
-				for _, sc := range culprits {
-					judge(cell{sc, cl.ci, cl.mi, cl.kind}, id+"[as part of "+cl.caller.Name+"]", observe(cell{sc, cl.ci, cl.mi, cl.kind}), result, fault, where)
-				}
-				return
-			}
-			violation(stage, fmt.Sprintf("perm:permission-set-not-the-union-of-its-permissions:set-%v:union-%v", halted, union), id,
-				fmt.Sprintf("%s call %s -> %s.%s: halted=%v, reference=%v, union of the engine's answers for its single permissions=%v; shapes: %s", cl.kind, cl.caller.Name, callee.Name, m.Name, halted, want, union, shape),
-				map[string]any{"stage": stage, "caller_permissions": cl.caller.Perms, "callee": callee.Name, "callee_groups": callee.keys, "method": m.Name, "executed": where})
-			return
-		}
-		wit := map[string]any{"stage": stage, "cell": id, "executed": where, "callee": callee.Name, "callee_groups": callee.keys, "method": m.Name, "call_kind": cl.kind, "fault": fault, "shape": shape}
-		if cl.caller != nil {
-			wit["caller_permissions"] = cl.caller.Perms
-			wit["caller"] = cl.caller.Name
-		}
-		switch {
-		case halted && !want:
-			// name the permissions that match the contract but not the method
-			var near []string
-			for _, s := range strings.Split(shape, "+") {
-				if strings.HasSuffix(s, "-match/method-not-in-list") || strings.HasSuffix(s, "-match/method-list-empty") || s == "wildcard/method-not-in-list" || s == "wildcard/method-list-empty" {
-					k := strings.SplitN(s, "/", 2)[0]
-					k = strings.TrimSuffix(k, "-match")
-					if !contains(near, k) {
-						near = append(near, k)
+		var judge func(cl cell, id string, halted bool, result int64, fault string, where string)
+		judge = func(cl cell, id string, halted bool, result int64, fault string, where string) {
+			callee, m := callees[cl.ci], calleeMethods[cl.mi]
+			want, shape := expect(cl)
+			if cl.caller != nil && len(cl.caller.Perms) > 1 && halted != want && !m.Safe {
+				// A permission set allows what the union of its permissions allows.
+				// If the engine's answer for the set equals the union of its answers
+				// for the one-permission manifests (deployed as well), the deviation
+				// is the one already shown by those; report it under their signature.
+				union := false
+				var culprits []*callerSpec
+				for _, p := range cl.caller.Perms {
+					sc := single[[2]int{p.di, p.li}]
+					got := observe(cell{sc, cl.ci, cl.mi, cl.kind})
+					union = union || got
+					if w, _ := expect(cell{sc, cl.ci, cl.mi, cl.kind}); w != got {
+						culprits = append(culprits, sc)
 					}
 				}
+				if union == halted && len(culprits) > 0 {
+					for _, sc := range culprits {
+						judge(cell{sc, cl.ci, cl.mi, cl.kind}, id+"[as part of "+cl.caller.Name+"]", observe(cell{sc, cl.ci, cl.mi, cl.kind}), result, fault, where)
+					}
+					return
+				}
+				viol(fmt.Sprintf("perm:permission-set-not-the-union-of-its-permissions:set-%v:union-%v", halted, union), id,
+					fmt.Sprintf("%s call %s -> %s.%s: halted=%v, reference=%v, union of the engine's answers for its single permissions=%v; shapes: %s", cl.kind, cl.caller.Name, callee.Name, m.Name, halted, want, union, shape),
+					map[string]any{"stage": stage, "node": phase, "caller_permissions": cl.caller.Perms, "callee": callee.Name, "callee_groups": callee.keys, "method": m.Name, "executed": where})
+				return
 			}
-			sort.Strings(near)
-			sig := "perm:call-succeeded-without-matching-permission:no-permission-matches-the-contract"
-			if len(near) > 0 {
-				sig = "perm:call-succeeded-without-matching-permission:contract-matched-by=" + strings.Join(near, ",") + ":method-not-in-its-list"
+			wit := map[string]any{"stage": stage, "node": phase, "cell": id, "executed": where, "callee": callee.Name, "callee_groups": callee.keys, "method": m.Name, "call_kind": cl.kind, "fault": fault, "shape": shape}
+			if cl.caller != nil {
+				wit["caller_permissions"] = cl.caller.Perms
+				wit["caller"] = cl.caller.Name
 			}
-			violation(stage, sig, id, fmt.Sprintf("%s call %s -> %s.%s HALTed (result %d) although no permission of the caller matches both the callee and the method; permission shapes: %s", cl.kind, cl.caller.Name, callee.Name, m.Name, result, shape), wit)
-		case !halted && want:
-			violation(stage, "perm:call-failed-despite-matching-permission:"+shape, id,
-				fmt.Sprintf("%s call -> %s.%s FAULTed (%s) although a permission matches; shapes: %s", cl.kind, callee.Name, m.Name, fault, shape), wit)
-		case halted && result != m.Ret:
-			violation(stage, "perm:wrong-callee-result", id, fmt.Sprintf("result %d, want %d", result, m.Ret), wit)
-		}
-	}
-	cellID := func(cl cell) string {
-		cn := "entry"
-		if cl.caller != nil {
-			cn = cl.caller.Name
-		}
-		return fmt.Sprintf("perm/%s/%s/%s->%s.%s", stage, cl.kind, cn, callees[cl.ci].Name, calleeMethods[cl.mi].Name)
-	}
-	var mu sync.Mutex
-	shapesSeen := map[string]int{}
-	type cellResult struct {
-		id     string
-		halted bool
-		res    int64
-		fault  string
-		done   bool
-	}
-	results := make([]cellResult, len(cells))
-	parallel(len(cells), func(i int) {
-		cl := cells[i]
-		callee, m := callees[cl.ci], calleeMethods[cl.mi]
-		cn := "entry"
-		if cl.caller != nil {
-			cn = cl.caller.Name
-		}
-		id := fmt.Sprintf("perm/%s/%s/%s->%s.%s", stage, cl.kind, cn, callee.Name, m.Name)
-		if !run.Want(id) {
-			return
-		}
-		s := script(cl)
-		o, err := v.run(&invocation{Script: s, EntryFlags: callflag.All})
-		if err != nil {
-			violation(stage, "panic-escaped-vm:perm", id, err.Error(), map[string]any{"script": hex.EncodeToString(s)})
-			return
-		}
-		var res int64 = -1
-		if o.Halted && len(o.Stack) == 1 {
-			if n, err := o.Stack[0].TryInteger(); err == nil {
-				res = n.Int64()
+			switch {
+			case halted && !want:
+				// name the permissions that match the contract but not the method
+				var near []string
+				for _, s := range strings.Split(shape, "+") {
+					if strings.HasSuffix(s, "-match/method-not-in-list") || strings.HasSuffix(s, "-match/method-list-empty") || s == "wildcard/method-not-in-list" || s == "wildcard/method-list-empty" {
+						k := strings.SplitN(s, "/", 2)[0]
+						k = strings.TrimSuffix(k, "-match")
+						if !contains(near, k) {
+							near = append(near, k)
+						}
+					}
+				}
+				sort.Strings(near)
+				sig := "perm:call-succeeded-without-matching-permission:no-permission-matches-the-contract"
+				if len(near) > 0 {
+					sig = "perm:call-succeeded-without-matching-permission:contract-matched-by=" + strings.Join(near, ",") + ":method-not-in-its-list"
+				}
+				viol(sig, id, fmt.Sprintf("%s call %s -> %s.%s HALTed (result %d) although no permission of the caller matches both the callee and the method; permission shapes: %s", cl.kind, cl.caller.Name, callee.Name, m.Name, result, shape), wit)
+			case !halted && want:
+				viol("perm:call-failed-despite-matching-permission:"+shape, id,
+					fmt.Sprintf("%s call -> %s.%s FAULTed (%s) although a permission matches; shapes: %s", cl.kind, callee.Name, m.Name, fault, shape), wit)
+			case halted && result != m.Ret:
+				viol("perm:wrong-callee-result", id, fmt.Sprintf("result %d, want %d", result, m.Ret), wit)
 			}
 		}
-		want, shape := expect(cl)
-		// the permission check was reached when the caller contract's context was entered
-		reached := cl.caller == nil || len(o.Calls) > 0
-		run.Case(fmt.Sprintf("perm/%s/%s/%s/%s/want=%v/halt=%v", stage, cl.kind, callee.Name+"."+m.Name, shape, want, o.Halted), reached)
-		cnt.add("cells", 1)
-		if o.Halted {
-			cnt.add("calls_succeeded", 1)
-		} else if strings.Contains(o.Fault, "disallowed method call") {
-			cnt.add("calls_refused_by_permission_check", 1)
-		} else {
-			cnt.add("calls_failed_otherwise", 1)
-		}
-		if want {
-			cnt.add("reference_allows", 1)
-		} else {
-			cnt.add("reference_denies", 1)
-		}
-		mu.Lock()
-		shapesSeen[shape]++
-		mu.Unlock()
-		obsMu.Lock()
-		observed[obsKey{cn, cl.ci, cl.mi, cl.kind}] = o.Halted
-		obsMu.Unlock()
-		mu.Lock()
-		results[i] = cellResult{id, o.Halted, res, o.Fault, true}
-		mu.Unlock()
-		if i%211 == 0 {
-			run.Sample(map[string]any{"case": id, "shape": shape, "reference_allows": want, "halted": o.Halted})
-		}
-	})
-	run.Obs("perm_distinct_permission_shapes_"+stage, int64(len(shapesSeen)))
-	for i, cr := range results {
-		if cr.done {
-			judge(cells[i], cr.id, cr.halted, cr.res, cr.fault, "test invocation")
-		}
-	}
-
-	// --- a sample of the cells in real transactions --------------------------
-	var sample []cell
-	for i, cl := range cells {
-		if cl.caller != nil && len(cl.caller.Perms) <= 1 && cl.ci == 1 && cl.kind == "dyn" && cl.mi != 1 || i%97 == 0 {
-			if run.Want(cellID(cl)) {
-				sample = append(sample, cl)
-			}
-		}
-	}
-	user := neotest.Signer(v.user)
-	for i := 0; i < len(sample); i += 32 {
-		part := sample[i:min(i+32, len(sample))]
-		var txs []*transaction.Transaction
-		for _, cl := range part {
-			tx := transaction.New(script(cl), 0)
-			tx.Nonce = neotest.Nonce()
-			tx.ValidUntilBlock = bc.BlockHeight() + 1
-			e.SignTx(t, tx, 1_0000_0000, user)
-			txs = append(txs, tx)
-		}
-		e.AddNewBlock(t, txs...)
-		for k, tx := range txs {
-			cl := part[k]
-			aer, err := bc.GetAppExecResults(tx.Hash(), 0x40)
-			if err != nil || len(aer) != 1 {
-				run.Inconclusive("on-chain permission cell: no execution result: %v", err)
-				continue
-			}
+		cellID := func(cl cell) string {
 			cn := "entry"
 			if cl.caller != nil {
 				cn = cl.caller.Name
 			}
-			id := fmt.Sprintf("perm/%s/%s/%s->%s.%s", stage, cl.kind, cn, callees[cl.ci].Name, calleeMethods[cl.mi].Name)
+			return fmt.Sprintf("perm/%s/%s/%s->%s.%s", tag, cl.kind, cn, callees[cl.ci].Name, calleeMethods[cl.mi].Name)
+		}
+		var mu sync.Mutex
+		shapesSeen := map[string]int{}
+		type cellResult struct {
+			id     string
+			halted bool
+			res    int64
+			fault  string
+			done   bool
+		}
+		results := make([]cellResult, len(cells))
+		parallel(len(cells), func(i int) {
+			cl := cells[i]
+			callee, m := callees[cl.ci], calleeMethods[cl.mi]
+			cn := "entry"
+			if cl.caller != nil {
+				cn = cl.caller.Name
+			}
+			id := fmt.Sprintf("perm/%s/%s/%s->%s.%s", tag, cl.kind, cn, callee.Name, m.Name)
+			if !run.Want(id) {
+				return
+			}
+			s := script(cl)
+			o, err := v.run(&invocation{Script: s, EntryFlags: callflag.All})
+			if err != nil {
+				viol("panic-escaped-vm:perm", id, err.Error(), map[string]any{"script": hex.EncodeToString(s)})
+				return
+			}
 			var res int64 = -1
-			if aer[0].VMState == vmstate.Halt && len(aer[0].Stack) == 1 {
-				if n, err := aer[0].Stack[0].TryInteger(); err == nil {
+			if o.Halted && len(o.Stack) == 1 {
+				if n, err := o.Stack[0].TryInteger(); err == nil {
 					res = n.Int64()
 				}
 			}
-			cnt.add("cells_executed_in_blocks", 1)
-			run.Case("perm-onchain/"+id, true)
-			judge(cl, id, aer[0].VMState == vmstate.Halt, res, aer[0].FaultException, fmt.Sprintf("transaction %s in block %d", tx.Hash().StringLE(), bc.BlockHeight()))
+			want, shape := expect(cl)
+			// the permission check was reached when the caller contract's context was entered
+			reached := cl.caller == nil || len(o.Calls) > 0
+			run.Case(fmt.Sprintf("perm/%s/%s/%s/%s/want=%v/halt=%v", tag, cl.kind, callee.Name+"."+m.Name, shape, want, o.Halted), reached)
+			cnt.add("cells", 1)
+			if o.Halted {
+				cnt.add("calls_succeeded", 1)
+			} else if strings.Contains(o.Fault, "disallowed method call") {
+				cnt.add("calls_refused_by_permission_check", 1)
+			} else {
+				cnt.add("calls_failed_otherwise", 1)
+			}
+			if want {
+				cnt.add("reference_allows", 1)
+			} else {
+				cnt.add("reference_denies", 1)
+			}
+			mu.Lock()
+			shapesSeen[shape]++
+			mu.Unlock()
+			obsMu.Lock()
+			observed[obsKey{cn, cl.ci, cl.mi, cl.kind}] = o.Halted
+			obsMu.Unlock()
+			mu.Lock()
+			results[i] = cellResult{id, o.Halted, res, o.Fault, true}
+			mu.Unlock()
+			if i%211 == 0 {
+				run.Sample(map[string]any{"case": id, "shape": shape, "reference_allows": want, "halted": o.Halted})
+			}
+		})
+		run.Obs("perm_distinct_permission_shapes_"+tag, int64(len(shapesSeen)))
+		for i, cr := range results {
+			if cr.done {
+				judge(cells[i], cr.id, cr.halted, cr.res, cr.fault, "test invocation on the "+phase)
+			}
 		}
+
+		// --- a sample of the cells in real transactions --------------------------
+		var sample []cell
+		for i, cl := range cells {
+			if cl.caller != nil && len(cl.caller.Perms) <= 1 && cl.ci == 1 && cl.kind == "dyn" && cl.mi != 1 || i%97 == 0 {
+				if run.Want(cellID(cl)) {
+					sample = append(sample, cl)
+				}
+			}
+		}
+		user := neotest.Signer(v.user)
+		for i := 0; i < len(sample); i += 32 {
+			part := sample[i:min(i+32, len(sample))]
+			var txs []*transaction.Transaction
+			for _, cl := range part {
+				tx := transaction.New(script(cl), 0)
+				tx.Nonce = neotest.Nonce()
+				tx.ValidUntilBlock = bc.BlockHeight() + 1
+				e.SignTx(t, tx, 1_0000_0000, user)
+				txs = append(txs, tx)
+			}
+			e.AddNewBlock(t, txs...)
+			for k, tx := range txs {
+				cl := part[k]
+				aer, err := bc.GetAppExecResults(tx.Hash(), 0x40)
+				if err != nil || len(aer) != 1 {
+					run.Inconclusive("on-chain permission cell: no execution result: %v", err)
+					continue
+				}
+				cn := "entry"
+				if cl.caller != nil {
+					cn = cl.caller.Name
+				}
+				id := fmt.Sprintf("perm/%s/%s/%s->%s.%s", tag, cl.kind, cn, callees[cl.ci].Name, calleeMethods[cl.mi].Name)
+				var res int64 = -1
+				if aer[0].VMState == vmstate.Halt && len(aer[0].Stack) == 1 {
+					if n, err := aer[0].Stack[0].TryInteger(); err == nil {
+						res = n.Int64()
+					}
+				}
+				cnt.add("cells_executed_in_blocks", 1)
+				run.Case("perm-onchain/"+id, true)
+				judge(cl, id, aer[0].VMState == vmstate.Halt, res, aer[0].FaultException, fmt.Sprintf("transaction %s in block %d on the %s", tx.Hash().StringLE(), bc.BlockHeight(), phase))
+			}
+		}
+		cnt.flush(run, "perm_"+strings.ReplaceAll(phase, " ", "_")+"_")
 	}
-	cnt.flush(run, "perm_")
+	evaluate(v, "deploying node")
+	checkManifests(run, v, stage, "deploying node", deps)
+	v2, err := v.restart()
+	if err != nil {
+		run.Inconclusive("stage %s: node could not be restarted on its database: %v", stage, err)
+		return
+	}
+	run.Obs("perm_node_restarts", 1)
+	checkManifests(run, v2, stage, "restarted node", deps)
+	evaluate(v2, "restarted node")
 }
 
 func contains(l []string, s string) bool {
@@ -611,4 +662,153 @@ func contains(l []string, s string) bool {
 		}
 	}
 	return false
+}
+
+// --- what the node holds for a deployed manifest vs. what was deployed ------
+
+// canonJSON renders the enforcement-relevant parts of the deployed JSON.
+func canonJSON(mf []byte) (map[string]string, error) {
+	var m struct {
+		Groups []struct {
+			PubKey string `json:"pubkey"`
+		} `json:"groups"`
+		ABI struct {
+			Methods []struct {
+				Name       string `json:"name"`
+				Parameters []any  `json:"parameters"`
+				Safe       bool   `json:"safe"`
+			} `json:"methods"`
+		} `json:"abi"`
+		Permissions []struct {
+			Contract string          `json:"contract"`
+			Methods  json.RawMessage `json:"methods"`
+		} `json:"permissions"`
+		Trusts json.RawMessage `json:"trusts"`
+	}
+	if err := json.Unmarshal(mf, &m); err != nil {
+		return nil, err
+	}
+	list := func(raw json.RawMessage) string {
+		if string(raw) == `"*"` {
+			return "*"
+		}
+		var l []string
+		_ = json.Unmarshal(raw, &l)
+		return "[" + strings.Join(l, ",") + "]"
+	}
+	res := map[string]string{}
+	var ps, gs, ms []string
+	for _, p := range m.Permissions {
+		ps = append(ps, strings.ToLower(p.Contract)+":"+list(p.Methods))
+	}
+	for _, g := range m.Groups {
+		gs = append(gs, strings.ToLower(g.PubKey))
+	}
+	for _, x := range m.ABI.Methods {
+		ms = append(ms, fmt.Sprintf("%s/%d:safe=%v", x.Name, len(x.Parameters), x.Safe))
+	}
+	res["permissions"] = strings.Join(ps, ";")
+	res["groups"] = strings.Join(gs, ";")
+	res["safe-flags"] = strings.Join(ms, ";")
+	res["trusts"] = strings.ToLower(list(m.Trusts))
+	return res, nil
+}
+
+func descString(d *manifest.PermissionDesc) string {
+	switch d.Type {
+	case manifest.PermissionWildcard:
+		return "*"
+	case manifest.PermissionHash:
+		return "0x" + d.Hash().StringLE()
+	case manifest.PermissionGroup:
+		return hex.EncodeToString(d.Group().Bytes())
+	}
+	return fmt.Sprintf("?%d", d.Type)
+}
+
+// canonManifest renders the same parts of a manifest object held by the node.
+func canonManifest(m *manifest.Manifest) map[string]string {
+	res := map[string]string{}
+	var ps, gs, ms, ts []string
+	for i := range m.Permissions {
+		p := &m.Permissions[i]
+		l := "*"
+		if p.Methods.Value != nil { // nil is what the engine treats as "any method"
+			l = "[" + strings.Join(p.Methods.Value, ",") + "]"
+		}
+		ps = append(ps, descString(&p.Contract)+":"+l)
+	}
+	for _, g := range m.Groups {
+		gs = append(gs, hex.EncodeToString(g.PublicKey.Bytes()))
+	}
+	for _, x := range m.ABI.Methods {
+		ms = append(ms, fmt.Sprintf("%s/%d:safe=%v", x.Name, len(x.Parameters), x.Safe))
+	}
+	t := "*"
+	if !m.Trusts.Wildcard {
+		for i := range m.Trusts.Value {
+			ts = append(ts, descString(&m.Trusts.Value[i]))
+		}
+		t = "[" + strings.Join(ts, ",") + "]"
+	}
+	res["permissions"] = strings.Join(ps, ";")
+	res["groups"] = strings.Join(gs, ";")
+	res["safe-flags"] = strings.Join(ms, ";")
+	res["trusts"] = t
+	return res
+}
+
+// checkManifests compares, for every contract deployed by the matrix, the
+// manifest the node holds (and the stack-item round trip it performs when it
+// stores / reloads a contract) with the JSON that was deployed.
+func checkManifests(run *ev.Run, v *env, stage, phase string, deps []deployment) {
+	sections := []string{"permissions", "trusts", "groups", "safe-flags"}
+	cmp := func(where string, d deployment, want, got map[string]string) {
+		for _, sec := range sections {
+			if want[sec] != got[sec] {
+				violation(stage, "manifest-round-trip:"+sec+"-differ:"+where, "manifest/"+stage+"/"+d.name,
+					fmt.Sprintf("contract %s: %s deployed as %q, %s has %q", d.name, sec, want[sec], where, got[sec]),
+					map[string]any{"stage": stage, "contract": d.name, "deployed_manifest": string(d.mf), "where": where, "section": sec, "deployed": want[sec], "held": got[sec]})
+			}
+		}
+	}
+	n := int64(0)
+	for _, d := range deps {
+		if !run.Want("manifest/" + stage + "/" + d.name) {
+			continue
+		}
+		want, err := canonJSON(d.mf)
+		if err != nil {
+			run.Inconclusive("cannot parse own manifest of %s: %v", d.name, err)
+			continue
+		}
+		cs := v.bc.GetContractState(d.hash)
+		if cs == nil {
+			violation(stage, "manifest-round-trip:contract-missing:"+strings.ReplaceAll(phase, " ", "-"), "manifest/"+stage+"/"+d.name, "contract "+d.name+" not found on the "+phase, nil)
+			continue
+		}
+		cmp("contract-state-on-"+strings.ReplaceAll(phase, " ", "-"), d, want, canonManifest(&cs.Manifest))
+		n++
+		if phase == "deploying node" {
+			// the conversion the node applies when it stores and reloads a contract
+			m := new(manifest.Manifest)
+			if err := json.Unmarshal(d.mf, m); err != nil {
+				run.Inconclusive("manifest of %s does not parse: %v", d.name, err)
+				continue
+			}
+			it, err := m.ToStackItem()
+			if err != nil {
+				run.Inconclusive("manifest of %s has no stack item form: %v", d.name, err)
+				continue
+			}
+			m2 := new(manifest.Manifest)
+			if err := m2.FromStackItem(it); err != nil {
+				violation(stage, "manifest-round-trip:stack-item-form-not-decodable", "manifest/"+stage+"/"+d.name, err.Error(), map[string]any{"deployed_manifest": string(d.mf)})
+				continue
+			}
+			cmp("stack-item-form", d, want, canonManifest(m2))
+			run.Case("manifest-round-trip/"+stage+"/"+want["permissions"]+"/"+want["trusts"]+"/"+want["groups"], true)
+		}
+	}
+	run.Obs("manifests_compared_on_"+strings.ReplaceAll(phase, " ", "_"), n)
 }
